@@ -37,7 +37,7 @@ PROPS = {
                  'polynomial, dual-stage Friis composition, band filter: all proved on the real functions.',
         'level_note': '_gain_profile (polyfit + secant step of the DGT model) is an assumed contract (one gain per channel) in '
                       'the proofs; that its profile delivers the effective gain is a bounded stand-in (four shipped amplifier '
-                      'models x gains x tilts x input shapes, 0.02 dB); a one-channel spectrum raises IndexError (finding F16)',
+                      'models x gains x tilts x input shapes, 0.02 dB)',
         'trusted': NUMPY_TRUST + ['Edfa._gain_profile (assumed contract)'],
         'extra': [{'name': 'amp_gain', 'kind': 'bounded', 'script': 'bounded/amp_gain.py', 'timeout': 1200},
                   {'name': 'params_load', 'kind': 'bounded', 'script': 'bounded/params_load.py', 'timeout': 900}],
